@@ -46,7 +46,7 @@ theorem loadPkg_ok_inv (b : Bundle) (fuel : Nat) (chain : List Str) (name : Str)
 /-- references of one source file -/
 def srcFileRefs : SrcFile → List (Str × Str)
   | .proto _ _ _ => []
-  | .j5s path _ elems => fileRefs (packageFromFilename (path ++ b!".proto")) elems
+  | .j5s path _ elems _ => fileRefs (packageFromFilename (path ++ b!".proto")) elems
 
 /-- two resolvers agree on the references of a source file, under every import map -/
 def AgreeFile (res res' : Resolver) (f : SrcFile) : Prop :=
@@ -57,7 +57,7 @@ theorem convOf_congr (res res' : Resolver) (f : SrcFile) (h : AgreeFile res res'
     convOf res f = convOf res' f := by
   cases f with
   | proto path msgs enums => rfl
-  | j5s path imports elems =>
+  | j5s path imports elems decl =>
     simp only [convOf]
     rw [convertFile_congr res res' path imports elems h]
 
@@ -74,9 +74,10 @@ theorem append_decl_pkg (b b' : Bundle) (name : Str) (p p' : Pkg) (l l' : Loaded
     (hf : b.find name = some p) (hf' : b'.find name = some p')
     (hl : loadPkg b (fuel + 1) chain name = .ok l)
     (hl' : loadPkg b' (fuel' + 1) chain' name = .ok l')
-    (pre post : List SrcFile) (path : Str) (imports : List Import) (elems : List Elem) (e : Elem)
-    (hp : p.files = pre ++ [.j5s path imports elems] ++ post)
-    (hp' : p'.files = pre ++ [.j5s path imports (elems ++ [e])] ++ post)
+    (pre post : List SrcFile) (path : Str) (imports : List Import) (elems : List Elem) (decl : Str)
+    (e : Elem)
+    (hp : p.files = pre ++ [.j5s path imports elems decl] ++ post)
+    (hp' : p'.files = pre ++ [.j5s path imports (elems ++ [e]) decl] ++ post)
     (hagree : ∀ f ∈ p.files, AgreeFile l.resolver l'.resolver f) :
     ∀ f ∈ l.files, ∃ f' ∈ l'.files, f.Le f' := by
   obtain ⟨hfiles, _⟩ := loadPkg_ok_inv b fuel chain name p l hf hl
@@ -98,10 +99,10 @@ theorem append_decl_pkg (b b' : Bundle) (name : Str) (p p' : Pkg) (l l' : Loaded
     rw [convOf_congr _ _ g (hagree g (hmem g (Or.inl hg)))] at hfg
     exact ⟨f, Or.inl (Or.inl (List.mem_flatMap.mpr ⟨g, hg, hfg⟩)), FileSkel.Le.refl f⟩
   · -- the edited file
-    have hag := hagree (.j5s path imports elems) (by rw [hp]; simp)
+    have hag := hagree (.j5s path imports elems decl) (by rw [hp]; simp)
     rw [convOf_congr _ _ _ hag] at hfm
     -- both conversions under the new resolver succeed
-    have hok2 : convOk l'.resolver (.j5s path imports (elems ++ [e])) :=
+    have hok2 : convOk l'.resolver (.j5s path imports (elems ++ [e]) decl) :=
       hok' _ (by rw [hp']; simp)
     obtain ⟨fs', hfs'⟩ := hok2
     simp only [convOf] at hfm
